@@ -1,7 +1,8 @@
 #!/bin/bash
-# usage: reseed.sh <seed-id> <checks,comma>   re-evaluates one round-6 seed (files in seeded/_incoming6) with the live checks
-sid=$1; prop=${sid%%-*}; m=${sid: -1}; d=/verif/seeded/_incoming6
-python3 /verif/tools/try_seed.py $sid $prop $d/$prop.mut$m.diff $d/$prop.mut$m.demo_test.go "$2" > /tmp/seedgen6/re-$sid.json 2>&1
+# usage: reseed.sh <seed-id> <checks,comma>   re-evaluates one seed of round >= 6 (files in seeded/_incoming<r>) with the live checks
+sid=$1; prop=${sid%%-*}; m=${sid: -1}; r=${sid#*-r}; r=${r%?}; d=/verif/seeded/_incoming$r
+mkdir -p /tmp/seedgen$r
+python3 /verif/tools/try_seed.py $sid $prop $d/$prop.mut$m.diff $d/$prop.mut$m.demo_test.go "$2" > /tmp/seedgen$r/re-$sid.json 2>&1
 python3 - $sid <<'PY'
 import json,sys
 m=json.load(open('/verif/seeded/%s/meta.json'%sys.argv[1]))
